@@ -110,13 +110,16 @@ func d0(cv enc.Curve) *big.Int {
 //	x1lz / y1lz: [k]G has a coordinate with a leading zero byte (short DER INTEGER, padded field element)
 //	x2lz / y2lz: [k]P0 has one, for P0 = [d0]G (KDF and hash input must still be 32+32 bytes)
 //	t1z / t2z:   KDF(x2||y2, 1 resp. 2) is all zero for P0: the standard restarts (A5) and refuses (B4)
-type specials struct{ x1lz, y1lz, x2lz, y2lz, t1z, t2z []int64 }
+//	x2zz / y2zz: [k]P0 has a coordinate with two leading zero bytes (first one with the next byte < 0x80, then >= 0x80)
+type specials struct{ x1lz, y1lz, x2lz, y2lz, t1z, t2z, x2zz, y2zz []int64 }
 
 var specialK = map[string]specials{
 	"sm2": {x1lz: []int64{327, 659, 1270, 2109}, y1lz: []int64{107, 119, 206, 217}, x2lz: []int64{194, 913, 1184, 1199},
-		y2lz: []int64{295, 801, 932, 1519}, t1z: []int64{470, 524, 724, 1570, 1829, 2030}, t2z: []int64{62785}},
+		y2lz: []int64{295, 801, 932, 1519}, t1z: []int64{470, 524, 724, 1570, 1829, 2030}, t2z: []int64{62785},
+		x2zz: []int64{158997, 41294, 226856, 119745}, y2zz: []int64{112047, 46691, 171804, 202607}},
 	"p256": {x1lz: []int64{379, 552, 751, 783}, y1lz: []int64{43, 444, 742, 997}, x2lz: []int64{379, 453, 770, 877},
-		y2lz: []int64{172, 273, 1505, 1602}, t1z: []int64{32, 319, 396, 776, 803, 1211}, t2z: []int64{81184, 134054}},
+		y2lz: []int64{172, 273, 1505, 1602}, t1z: []int64{32, 319, 396, 776, 803, 1211}, t2z: []int64{81184, 134054},
+		x2zz: []int64{54244, 100668, 369386, 379658}, y2zz: []int64{524370, 55131, 384494}},
 }
 
 // ---------------------------------------------------------------- entry points
